@@ -292,6 +292,488 @@ def _cls(term):
     return term["c"]
 
 
+# ---------------------------------------------------------------------------------------------- the stir
+# Comparisons are rarely the first thing that happens to an object.  A *plan* (JSON-able, deterministic in the seed)
+# builds a pool from recipes, hashes every object / uses it as a dict key, uses the objects as left and right
+# operands of + - * / (same and different quantities; failures are fine), compares, converts, prints them, then builds
+# every recipe again and copies / pickles the stirred objects.  Afterwards ==, != and hash are asked on all ordered
+# pairs.  The model gets the descriptors the objects had WHEN THEY WERE CREATED, their identities and the history;
+# its verdicts do not depend on the history (theorems stir_*), so any effect of the history is a disagreement.
+ERRCH = {"units": "u", "type": "t", "value": "v", "readonly": "r", "key": "k", "index": "i", "assertion": "a",
+         "runtime": "n", "other": "o", "validation": "d"}
+STIR_BLOCK = 2500
+
+
+def _q_of(r):
+    """the Quantity of a quantity recipe"""
+    from barril.units import ObtainQuantity, Quantity
+
+    k = r[0]
+    if k == "qs":
+        return ObtainQuantity(r[1], r[2]) if r[3] is None else ObtainQuantity(r[1], r[2], r[3])
+    od = OrderedDict((c, [u, e]) for c, u, e in r[1])
+    if k == "q":
+        return ObtainQuantity(od) if r[2] is None else ObtainQuantity(od, None, r[2])
+    if k == "qd":
+        return Quantity.CreateDerived(od) if r[2] is None else Quantity.CreateDerived(od, unknown_unit_caption=r[2])
+    if k == "qnew":  # the constructor, not the cache
+        return Quantity(od, None, r[2])
+    raise ValueError("no quantity recipe %r" % (k,))
+
+
+def _container(kind, vals):
+    import numpy as np
+
+    vals = [_unnum(v) for v in vals]
+    return {"list": list, "tuple": tuple, "ndarray": np.array}[kind](vals)
+
+
+def _build(r):
+    """the real object of a recipe (the private database must be the singleton)"""
+    from barril.basic.fraction import Fraction, FractionValue
+    from barril.curve.curve import Curve
+    from barril.units import Array, FixedArray, FractionScalar, Scalar
+
+    k = r[0]
+    if k in ("q", "qs", "qd", "qnew"):
+        return _q_of(r)
+    if k == "scalar":
+        return Scalar(_q_of(r[1]), _unnum(r[2]))
+    if k == "array":
+        return Array(_q_of(r[1]), _container(r[3], r[2]))
+    if k == "fixedarray":
+        return FixedArray(len(r[2]), _q_of(r[1]), _container(r[3], r[2]))
+    if k == "fscalar":
+        return FractionScalar(_q_of(r[1]), FractionValue(_unnum(r[2]), (r[3], r[4])))
+    if k == "fvalue":
+        return FractionValue(_unnum(r[1]), (r[2], r[3]))
+    if k == "fraction":
+        return Fraction(r[1], r[2])
+    if k == "curve":
+        return Curve(_build(r[1]), _build(r[2]))
+    if k == "py":
+        return _untnum(r[1])
+    raise ValueError("no recipe %r" % (k,))
+
+
+def _show_recipe(r):
+    k = r[0]
+    if k == "qs":
+        return "ObtainQuantity(%r, %r%s)" % (r[1], r[2], "" if r[3] is None else ", %r" % r[3])
+    if k in ("q", "qd", "qnew"):
+        od = "OrderedDict([%s])" % ", ".join("(%r, [%r, %r])" % (c, u, e) for c, u, e in r[1])
+        cap = "" if r[2] is None else ", %r" % r[2]
+        return {"q": "ObtainQuantity(%s%s)" % (od, ", None" + cap if cap else ""),
+                "qd": "Quantity.CreateDerived(%s%s)" % (od, cap.replace(", ", ", unknown_unit_caption=")),
+                "qnew": "Quantity(%s, None%s)" % (od, cap)}[k]
+    if k == "scalar":
+        return "Scalar(%s, %r)" % (_show_recipe(r[1]), _unnum(r[2]))
+    if k in ("array", "fixedarray"):
+        vals = [_unnum(v) for v in r[2]]
+        c = {"list": "%r" % (vals,), "tuple": "%r" % (tuple(vals),), "ndarray": "numpy.array(%r)" % (vals,)}[r[3]]
+        return "Array(%s, %s)" % (_show_recipe(r[1]), c) if k == "array" else \
+            "FixedArray(%d, %s, %s)" % (len(vals), _show_recipe(r[1]), c)
+    if k == "fscalar":
+        return "FractionScalar(%s, FractionValue(%r, (%r, %r)))" % (_show_recipe(r[1]), _unnum(r[2]), r[3], r[4])
+    if k == "fvalue":
+        return "FractionValue(%r, (%r, %r))" % (_unnum(r[1]), r[2], r[3])
+    if k == "fraction":
+        return "Fraction(%r, %r)" % (r[1], r[2])
+    if k == "curve":
+        return "Curve(%s, %s)" % (_show_recipe(r[1]), _show_recipe(r[2]))
+    return repr(_untnum(r[1]))
+
+
+ARITH = {"add": lambda a, b: a + b, "sub": lambda a, b: a - b, "mul": lambda a, b: a * b, "div": lambda a, b: a / b}
+ARITH_SIGN = {"add": "+", "sub": "-", "mul": "*", "div": "/"}
+GROW = ("fresh", "pickle", "deepcopy", "copy")
+
+
+def _show_step(st):
+    k, a, b = st["k"], st["a"], st.get("b")
+    if k == "hash":
+        return "hash(%s); {%s: 0}" % (a, a)
+    if k in ARITH:
+        return "%s%s %s %s" % ("g%d = " % st["id"] if st.get("keep") else "", a, ARITH_SIGN[k], b)
+    if k == "cmp":
+        return "%s == %s; %s != %s; %s < %s; %s >= %s" % (a, b, a, b, a, b, a, b)
+    if k == "conv":
+        return "%s.GetValue(%r) / ConvertScalarValue(1.0, %r); %s.CreateCopy(unit=%r)" % (a, st["x"], st["x"], a, st["x"])
+    if k == "str":
+        return "str(%s); repr(%s)" % (a, a)
+    if k == "fresh":
+        return "g%d = the recipe of %s built again" % (st["id"], a)
+    if k == "pickle":
+        return "g%d = pickle.loads(pickle.dumps(%s))" % (st["id"], a)
+    if k == "deepcopy":
+        return "g%d = copy.deepcopy(%s)" % (st["id"], a)
+    return "g%d = %s.CreateCopy() (copy.copy for a Quantity)" % (st["id"], a)
+
+
+def _stir_types(ctx, rng, n):
+    """quantity types with several categories and several units: 'length' always, the others seeded"""
+    db = ctx.db
+    ok = sorted(q for q, cs in ctx.cats_of_type.items() if len(cs) >= 2 and len(db.quantity_types.get(q, ())) >= 2)
+    first = [q for q in ("length",) if q in ok]
+    rest = [q for q in ok if q not in first]
+    rng.shuffle(rest)
+    return first + rest[:n]
+
+
+def _stir_recipes_of_type(ctx, rng, qt):
+    """recipes on one quantity type: derived quantities that hold the type twice or three times, in different units
+    and different categories, their look-alikes in one unit, a mixed one, simple ones; value objects on them"""
+    db = ctx.db
+    cats = sorted(ctx.cats_of_type[qt])
+    named = [c for c in cats if c == qt]
+    others = [c for c in cats if c != qt]
+    rng.shuffle(others)
+    cs = (named + others)[:3]
+    units = [i.unit for i in db.quantity_types[qt]]
+    us = [units[0]] + rng.sample(units[1:], min(2, len(units) - 1))
+    c1, c2, c3 = cs[0], cs[1], cs[-1]
+    u1, u2, u3 = us[0], us[1], us[-1]
+    other_cat, other_unit = ("time", "s") if qt != "time" else ("length", "m")
+    qs = [
+        ["q", [[c1, u1, 1], [c2, u2, 1]], None],       # the type twice, two units           (m.cm)
+        ["q", [[c1, u2, 1], [c2, u2, 1]], None],       # the same in the second unit         (cm2)
+        ["q", [[c1, u1, 1], [c2, u1, 1]], None],       # the look-alike in the first unit    (m2)
+        ["q", [[c1, u2, 1], [c2, u1, 1]], None],       # the units swapped                   (cm.m)
+        ["q", [[c1, u1, 1], [c2, u2, -1]], None],      # a ratio of the two units
+        ["q", [[c1, u1, 2], [c2, u2, 1]], None],
+        ["qd", [[c2, u1, 1], [c1, u2, 1]], None],      # the categories swapped, through CreateDerived
+        ["q", [[c1, u1, 1], [other_cat, other_unit, -1], [c2, u2, 1]], None],
+        ["q", [[c1, u1, 1], [c2, u2, 1]], "x"],        # with a caption
+        ["qnew", [[c1, u1, 1], [c2, u2, 1]], None],    # the constructor: an object of its own, not interned
+        ["qs", u1, c1, None], ["qs", u2, c2, None], ["qs", u2, c1, None],
+    ]
+    if c3 != c2:
+        qs.append(["q", [[c1, u1, 1], [c2, u2, 1], [c3, u3, 1]], None])
+    two, three = _num(2.0), _num(3.0)
+    vals = [_num(1.0), _num(2.0)]
+    out = [list(q) for q in qs]
+    out += [["scalar", q, two] for q in qs]
+    out += [["scalar", q, three] for q in qs[:4]]
+    out += [["array", q, vals, "list"] for q in qs[:4] + qs[10:11]]
+    out += [["array", qs[0], vals, "ndarray"], ["array", qs[2], vals, "tuple"]]
+    out += [["fixedarray", qs[0], vals, "list"], ["fixedarray", qs[2], vals, "ndarray"]]
+    out += [["fscalar", qs[0], two, 1, 2], ["fscalar", qs[2], two, 1, 2], ["fscalar", qs[10], two, 1, 2]]
+    out += [["curve", ["array", qs[0], vals, "list"], ["array", ["qs", other_unit, other_cat, None], vals, "list"]]]
+    return out, (u1, u2, u3)
+
+
+def make_plan(ctx, name):
+    """the plan `name` = 'stir/<size>' (size = number of seeded quantity types besides length); deterministic in
+    (seed, name)"""
+    rng = ctx.fresh_rng("C08" + name)
+    n_types = int(name.split("/")[1])
+    recipes, groups, conv_units = [], [], {}
+    for qt in _stir_types(ctx, rng, n_types):
+        rs, us = _stir_recipes_of_type(ctx, rng, qt)
+        refs = []
+        for r in rs:
+            ref = "o%d" % len(recipes)
+            recipes.append([ref, r])
+            refs.append(ref)
+            conv_units[ref] = us
+        groups.append(refs)
+    unrelated = [["py", _tnum(2.0)], ["py", _tnum(2)], ["py", _tnum(None)], ["py", _tnum("m2")],
+                 ["fvalue", _num(2.0), 1, 2], ["fvalue", _num(2.5), 0, 1], ["fraction", 1, 2], ["fraction", 2, 1]]
+    urefs = []
+    for r in unrelated:
+        urefs.append("o%d" % len(recipes))
+        recipes.append([urefs[-1], r])
+    steps = []
+
+    def step(k, a, b=None, **kw):
+        steps.append(dict(kw, id=len(steps), k=k, a=a, b=b))
+
+    allrefs = [ref for ref, _ in recipes]
+    for ref in allrefs:  # hashed / used as a dict key first
+        step("hash", ref)
+    for refs in groups:  # every object of a type with every object of the type (and the numbers): + - * /
+        for a in refs + urefs[:2]:
+            for b in refs + urefs[:2]:
+                keep = rng.random() < 0.02
+                for k in ("add", "sub", "mul", "div"):
+                    step(k, a, b, keep=keep and k in ("add", "mul"))
+    for _ in range(150 * max(1, len(groups) - 1)):  # operands of different quantity types
+        ga, gb = rng.sample(groups, 2) if len(groups) > 1 else (groups[0], groups[0])
+        step(rng.choice(("add", "sub", "mul", "div")), rng.choice(ga), rng.choice(gb), keep=False)
+    for refs in groups:
+        for a in refs:
+            step("cmp", a, rng.choice(refs))
+            step("conv", a, x=rng.choice(conv_units[a]))
+            step("str", a)
+    for ref in allrefs:  # equal ones, built / copied / pickled after the stir
+        step("fresh", ref)
+        step("pickle", ref)
+        if rng.random() < 0.3:
+            step(rng.choice(("deepcopy", "copy")), ref)
+    return dict(name=name, recipes=recipes, steps=steps)
+
+
+def _ids(o, table):
+    """allocation index of an identity"""
+    return table.setdefault(id(o), len(table))
+
+
+def run_plan(plan, db, record):
+    """build the pool and perform the steps on the REAL code with `db` as the singleton.  Returns
+    dict(objs: ref -> object, order: refs in creation order, log: [(code, ref, ref)], desc: ref -> term)"""
+    import copy
+    import pickle
+
+    objs, order, log, desc, stat = {}, [], [], {}, {}
+    recipe_of = dict(plan["recipes"])
+
+    def count(k):
+        stat[k] = stat.get(k, 0) + 1
+
+    def add(ref, o):
+        if record:
+            try:
+                desc[ref] = enc(o)
+            except Exception:
+                count("not_encodable")
+                return
+        objs[ref] = o
+        order.append(ref)
+
+    with _Use(db):
+        for ref, r in plan["recipes"]:
+            try:
+                add(ref, _build(r))
+            except Exception:
+                count("recipe_rejected")
+        keys = {}
+        for st in plan["steps"]:
+            k, a, b = st["k"], st["a"], st.get("b")
+            if a not in objs or (b is not None and b not in objs):
+                continue
+            x, y = objs[a], objs.get(b)
+            gref = "g%d" % st["id"]
+            try:
+                if k == "hash":
+                    log.append((0, a, None))
+                    hash(x)
+                    keys.setdefault(x, a)
+                elif k in ARITH:
+                    log.append((2, a, b))
+                    r = ARITH[k](x, y)
+                    count("arith_ok")
+                    if st.get("keep") and r is not NotImplemented:
+                        add(gref, r)
+                elif k == "cmp":
+                    log.append((1, a, b))
+                    for f in (lambda: x == y, lambda: x != y, lambda: x < y, lambda: x >= y):
+                        try:
+                            f()
+                        except Exception:
+                            count("cmp_raised")
+                elif k == "conv":
+                    log.append((3, a, None))
+                    for f in (lambda: x.GetValue(st["x"]), lambda: x.ConvertScalarValue(1.0, st["x"]),
+                              lambda: x.CreateCopy(unit=st["x"]), lambda: x.GetQuantity().GetUnitName()):
+                        try:
+                            f()
+                        except Exception:
+                            count("conv_raised")
+                elif k == "str":
+                    log.append((3, a, None))
+                    str(x), repr(x)
+                elif k == "fresh":
+                    add(gref, _build(recipe_of[a]))
+                elif k == "pickle":
+                    log.append((3, a, None))
+                    add(gref, pickle.loads(pickle.dumps(x)))
+                elif k == "deepcopy":
+                    log.append((3, a, None))
+                    add(gref, copy.deepcopy(x))
+                elif k == "copy":
+                    log.append((3, a, None))
+                    add(gref, x.CreateCopy() if hasattr(x, "CreateCopy") else copy.copy(x))
+            except Exception:
+                count("step_raised_" + ("arith" if k in ARITH else k))
+    return dict(objs=objs, order=order, log=log, desc=desc, stat=stat, db=db)
+
+
+def _stir_state(ctx, name):
+    """the stirred pool of plan `name` on its own database (built once per run), with the model's view of it"""
+    st = ctx.__dict__.setdefault("_stir", {})
+    if name in st:
+        return st[name]
+    plan = make_plan(ctx, name)
+    run = run_plan(plan, translate.build_db("posc"), True)
+    order = run["order"]
+    index = {ref: i for i, ref in enumerate(order)}
+    oid, qid = {}, {}
+    pool = []
+    for ref in order:
+        o = run["objs"][ref]
+        q = o if type(o).__name__ == "Quantity" else getattr(o, "_quantity", None)
+        pool.append(dict(t=run["desc"][ref], oid=_ids(o, oid), qid=0 if q is None else 1 + _ids(q, qid)))
+    script = [[c, index[a]] if b is None else [c, index[a], index[b]] for c, a, b in run["log"]]
+    st[name] = dict(plan=plan, run=run, order=order, index=index, pool=pool, script=script)
+    ctx.notes["stir_" + name.replace("/", "_")] = dict(
+        objects=len(order), originals=sum(1 for r in order if r[0] == "o"), history_steps=len(script),
+        history=dict(sorted(run["stat"].items())),
+        classes=dict(sorted(_count(d["t"]["c"] for d in pool).items())))
+    return st[name]
+
+
+def _count(it):
+    d = {}
+    for x in it:
+        d[x] = d.get(x, 0) + 1
+    return d
+
+
+def _stir_cases(ctx, name):
+    s = _stir_state(ctx, name)
+    order = s["order"]
+    pairs = [(a, b) for a in order for b in order]
+    for k in range(0, len(pairs), STIR_BLOCK):
+        blk = pairs[k:k + STIR_BLOCK]
+        yield dict(op="stir", small=ctx.small, pool=s["pool"], script=s["script"],
+                   queries=[[s["index"][a], s["index"][b]] for a, b in blk],
+                   _t=dict(plan=name, pairs=[[a, b] for a, b in blk]))
+
+
+def _code(r):
+    return ("T" if r else "F") if isinstance(r, bool) else ERRCH.get(r.get("err"), "o")
+
+
+def _pair_code(a, b):
+    ha, hb = _hash(a), _hash(b)
+    heq = "-" if not (ha[0] == "ok" and hb[0] == "ok") else "1" if ha[1] == hb[1] else "0"
+    return (_code(_res(lambda: a == b)) + _code(_res(lambda: a != b)) + ("h" if ha[0] == "ok" else ERRCH.get(ha[0], "o"))
+            + ("h" if hb[0] == "ok" else ERRCH.get(hb[0], "o")) + heq)
+
+
+def _impl_stir(c, ctx):
+    t = c["_t"]
+    s = _stir_state(ctx, t["plan"])
+    objs, desc = s["run"]["objs"], s["run"]["desc"]
+    changed = []
+    for a in sorted({p[0] for p in t["pairs"]}, key=lambda r: s["index"][r]):
+        try:
+            now = enc(objs[a])
+        except Exception as e:
+            now = dict(c="?", why=repr(e)[:80])
+        if now != desc[a]:
+            changed.append(a)
+    return dict(codes="".join(_pair_code(objs[a], objs[b]) for a, b in t["pairs"]), changed=changed)
+
+
+def _resolve_plan(ctx, t):
+    p = t["plan"]
+    return p if isinstance(p, dict) else _stir_state(ctx, p)["plan"]
+
+
+def _describe(plan, ref):
+    """how the object `ref` of a plan comes about"""
+    rec = dict(plan["recipes"])
+    if ref in rec:
+        return "%s = %s" % (ref, _show_recipe(rec[ref]))
+    for st in plan["steps"]:
+        if "g%d" % st["id"] == ref:
+            return _show_step(st)
+    return ref
+
+
+def _oracle_stir(c, ctx):
+    """the clauses of the property on pooled objects after the history of the plan, everything built freshly on a
+    database of its own (so a replay in another process does exactly the same)"""
+    t = c["_t"]
+    plan = _resolve_plan(ctx, t)
+    cache = ctx.__dict__.setdefault("_stir_oracle", {})
+    key = plan.get("name")
+    run = cache.get(key) if key else None
+    if run is None:
+        run = run_plan(plan, translate.build_db("posc"), False)
+        if key:
+            cache[key] = run
+    objs = run["objs"]
+    for a, b in t["pairs"]:
+        if a not in objs or b not in objs:
+            continue
+        with _Use(run["db"]):
+            f = _eq_clauses(objs[a], objs[b])
+        if f:
+            n = len(plan["steps"])
+            return dict(f, pair=[a, b], a=repr(objs[a])[:120], b=repr(objs[b])[:120], a_is=_describe(plan, a),
+                        b_is=_describe(plan, b),
+                        after=[_show_step(st) for st in plan["steps"]] if n <= 40 else
+                        "the %d operations of the plan (hashing, + - * /, comparisons, conversions, copies)" % n)
+    return None
+
+
+def _explicit_case(ctx, plan, pair):
+    """a self-contained stir case on an explicit plan and one pair"""
+    run = run_plan(plan, translate.build_db("posc"), True)
+    order = run["order"]
+    index = {ref: i for i, ref in enumerate(order)}
+    if pair[0] not in index or pair[1] not in index:
+        return None
+    oid, qid, pool = {}, {}, []
+    for ref in order:
+        o = run["objs"][ref]
+        q = o if type(o).__name__ == "Quantity" else getattr(o, "_quantity", None)
+        pool.append(dict(t=run["desc"][ref], oid=_ids(o, oid), qid=0 if q is None else 1 + _ids(q, qid)))
+    script = [[k, index[a]] if b is None else [k, index[a], index[b]] for k, a, b in run["log"]]
+    return dict(op="stir", small=ctx.small, pool=pool, script=script, queries=[[index[pair[0]], index[pair[1]]]],
+                _t=dict(plan=plan, pairs=[list(pair)]))
+
+
+def _shrink_stir(case, failure, ctx):
+    """one pair, then as few steps and recipes as still fail (delta debugging over the steps, every trial on a
+    fresh database; bounded by time)"""
+    import time
+
+    plan0 = _resolve_plan(ctx, case["_t"])
+    pair = failure.get("pair")
+    if not pair:
+        return case, failure
+    t0 = time.time()
+
+    def trial(steps):
+        used = {pair[0], pair[1]}
+        for st in steps:
+            used.add(st["a"])
+            if st.get("b"):
+                used.add(st["b"])
+        plan = dict(recipes=[[r, x] for r, x in plan0["recipes"] if r in used], steps=steps)
+        c = dict(op="stir", _t=dict(plan=plan, pairs=[list(pair)]))
+        f = _oracle_stir(c, ctx)
+        return (plan, f) if f and f.get("clause") == failure.get("clause") else None
+
+    steps = list(plan0["steps"])
+    best = trial(steps)
+    if best is None:
+        return case, failure
+    n = 2
+    while len(steps) >= 1 and time.time() - t0 < 45:
+        size = max(1, len(steps) // n)
+        reduced = False
+        for k in range(0, len(steps), size):
+            cand = steps[:k] + steps[k + size:]
+            r = trial(cand)
+            if r is not None:
+                steps, best, reduced = cand, r, True
+                n = max(n - 1, 2)
+                break
+            if time.time() - t0 > 45:
+                break
+        if not reduced:
+            if size == 1:
+                break
+            n = min(len(steps), n * 2)
+    plan, f = best
+    out = _explicit_case(ctx, plan, pair)
+    return (out, f) if out is not None else (case, failure)
+
+
 # ---------------------------------------------------------------------------------------------- setup
 def setup(ctx):
     ctx.db = translate.build_db("posc")
@@ -425,6 +907,13 @@ def _eq_cases(ctx, which):
                        _t=dict(pool=which, i=i, j=j))
 
 
+def _basehash_cases(ctx, which):
+    """`AbstractValueWithQuantityObject.__hash__(o)` called explicitly, for every pooled object"""
+    for i, term in enumerate(ctx.terms[which]):
+        yield dict(op="basehash", a=term, _t=dict(pool=which, i=i))
+
+
+STIR_PLAN = {"quick": "stir/1", "thorough": "stir/5"}
 FR_OPERANDS = [None, "a", (), 1, 0, 2, -1, 0.5, 0.25, 1.5, 0.1, 0.333, 2.0, 1e-9, 123.456]
 
 
@@ -556,6 +1045,8 @@ def cases(ctx):
     yield from _xorder_cases(ctx, "corr", 3 if quick else 12)
     yield from _order_cases(ctx, "corr", 14 if quick else 70, 2 if quick else 4)
     yield from _eq_cases(ctx, "base" if quick else "wide")
+    yield from _basehash_cases(ctx, "base" if quick else "wide")
+    yield from _stir_cases(ctx, STIR_PLAN[ctx.tier])
     yield from _frac_cases(ctx, "corr", 6 if quick else 40)
 
 
@@ -582,6 +1073,13 @@ def show(c):
         return dict(op="eqpair", pool=t["pool"], i=t["i"], j=t["j"], a=c["a"]["c"], b=c["b"]["c"])
     if c["op"] == "fracord":
         return dict(op="fracord", frac=t["frac"], side=c["side"], other=t["other"])
+    if c["op"] == "basehash":
+        return dict(op="basehash", pool=t["pool"], i=t["i"], a=c["a"]["c"])
+    if c["op"] == "stir":
+        p = t["plan"]
+        return dict(op="stir", plan=p if isinstance(p, str) else "explicit (%d recipes, %d steps)" % (
+            len(p["recipes"]), len(p["steps"])), pairs=len(t["pairs"]), first=t["pairs"][0], last=t["pairs"][-1],
+            pool=len(c.get("pool", ())), history=len(c.get("script", ())))
     return dict(op=c["op"], q=_unnum(t["q"]))
 
 
@@ -627,6 +1125,17 @@ def impl(c, ctx):
                 ha, hb = _hash(a), _hash(b)
                 return dict(eq=_res(lambda: a == b), ne=_res(lambda: a != b), ha=ha[0], hb=hb[0],
                             heq=(ha[1] == hb[1]) if ha[0] == "ok" and hb[0] == "ok" else None)
+        if c["op"] == "basehash":
+            from barril.units._abstractvaluewithquantity import AbstractValueWithQuantityObject
+
+            o = ctx.pools[t["pool"]][t["i"]]
+            with _Use(ctx.db):
+                base = _res(lambda: AbstractValueWithQuantityObject.__hash__(o))
+                own = _res(lambda: hash(o) is None)
+            return dict(base=base.get("err") if isinstance(base, dict) else "ok",
+                        own_exc=own.get("exc") if isinstance(own, dict) else None)
+        if c["op"] == "stir":
+            return _impl_stir(c, ctx)
         if c["op"] == "fracord":
             from barril.basic.fraction import Fraction
 
@@ -740,6 +1249,15 @@ def agree(c, io, mo, ctx):
         if m["hkeq"] and not c["same"]:
             n["equal_hash_keys_on_distinct_objects"] = n.get("equal_hash_keys_on_distinct_objects", 0) + 1
         return None
+    if c["op"] == "basehash":
+        if io["base"] != m["h"]:
+            return "AbstractValueWithQuantityObject.__hash__(o): impl=%r model=%r" % (io["base"], m["h"])
+        if (io["own_exc"] == "NotImplementedError") != m["slot_raises"]:
+            return "hash(o) ends in the abstract base's __hash__: impl=%r model=%r" % (io["own_exc"], m["slot_raises"])
+        n["basehash_cases"] = n.get("basehash_cases", 0) + 1
+        return None
+    if c["op"] == "stir":
+        return _agree_stir(c, io, m, ctx)
     if c["op"] == "fracord":
         if "fo" in m:
             real, mod = qparse(io["fo"]), qparse(m["fo"])
@@ -765,6 +1283,36 @@ def agree(c, io, mo, ctx):
         return None if abs(real - mod) <= K * F(EPS) * max(abs(q), abs(real)) else \
             "Fraction(%r): real %s model %s" % (float(q), real, mod)
     return "unknown op"
+
+
+def _agree_stir(c, io, m, ctx):
+    n = ctx.notes
+    pairs = c["_t"]["pairs"]
+    if not m["pool_kept"]:
+        return "the model's history altered its pool"
+    if not m["wf"]:
+        return ("the pool is not well-formed: two pooled objects that are one object, or that hold one Quantity "
+                "object, had different descriptors when they were created")
+    if io["changed"]:
+        return ("the descriptors of the pooled objects %s are not the ones they were created with: an operation of "
+                "the history altered them (the model's operations leave them as they are: stir_keeps_pool)"
+                % (io["changed"][:6],))
+    real, mod = io["codes"], m["codes"]
+    if len(real) != 5 * len(pairs) or len(mod) != 5 * len(pairs):
+        return "answers for %d pairs expected: impl %d model %d characters" % (len(pairs), len(real), len(mod))
+    for k, (a, b) in enumerate(pairs):
+        r, d = real[5 * k:5 * k + 5], mod[5 * k:5 * k + 5]
+        if r[:4] != d[:4]:
+            return "after the history, %s vs %s: ==, !=, hash, hash are %r on the real code, %r in the model" % (
+                a, b, r[:4], d[:4])
+        if d[4] == "1" and r[4] != "1":
+            return "after the history, %s vs %s: the model's hash keys are equal but the real hashes differ" % (a, b)
+    n["stir_pairs_compared"] = n.get("stir_pairs_compared", 0) + len(pairs)
+    n["stir_pairs_equal"] = n.get("stir_pairs_equal", 0) + sum(1 for k in range(len(pairs)) if real[5 * k] == "T")
+    n["stir_pairs_equal_hash_keys"] = n.get("stir_pairs_equal_hash_keys", 0) + sum(
+        1 for k in range(len(pairs)) if mod[5 * k + 4] == "1")
+    n["stir_memoised_quantity_hashes"] = m["memo"]
+    return None
 
 
 def nontrivial(c, io):
@@ -893,6 +1441,13 @@ def oracle(c, ctx):
             with _Use(ctx.db):
                 f = _eq_clauses(a, b)
             return dict(f, a=repr(a)[:120], b=repr(b)[:120]) if f else None
+        if c["op"] == "stir":
+            return _oracle_stir(c, ctx)
+        if c["op"] == "basehash":
+            o = ctx.pools[c["_t"]["pool"]][c["_t"]["i"]]
+            with _Use(ctx.db):
+                f = _eq_clauses(o, o)
+            return dict(f, a=repr(o)[:120], b=repr(o)[:120]) if f else None
         if c["op"] == "fracord":
             from barril.basic.fraction import Fraction
 
@@ -952,6 +1507,12 @@ def replay_finding(entry, ctx):
     return f if (f and matches_known(entry, c, f)) else None
 
 
+def shrink(case, failure, ctx):
+    if case.get("op") == "stir":
+        return _shrink_stir(case, failure, ctx)
+    return case, failure
+
+
 def table_candidates(ctx):
     """after a broken table theorem: Scalar order cases on the units whose row is not well-formed any more (the rows
     are found by the model's executable predicate `UnitRow.wf`, the hypothesis of the order theorems)"""
@@ -986,6 +1547,7 @@ def search(ctx):
     quick = ctx.tier == "quick"
     yield from _xorder_cases(ctx, "search", 10 if quick else 40)
     yield from _eq_cases(ctx, "wide")
+    yield from _stir_cases(ctx, "stir/1" if quick else "stir/5")
     yield from _frac_cases(ctx, "search", 10)
     late = []
     for c in _order_cases(ctx, "search", 40 if quick else 200, 3, all_types=not quick):
